@@ -778,6 +778,26 @@ func (y *Type) Base() []*Identity {
 	return y.identities
 }
 
+// IdentityBases are the identities an identityref value of this type derives from: the bases
+// of the type itself, of the type a leafref points at and of every identityref member of a union
+func (y *Type) IdentityBases() []*Identity {
+	return y.identityBases(0)
+}
+
+func (y *Type) identityBases(depth int) []*Identity {
+	if y == nil || depth > 16 {
+		return nil
+	}
+	bases := append([]*Identity{}, y.identities...)
+	if y.delegate != nil && y.delegate != y {
+		bases = append(bases, y.delegate.identityBases(depth+1)...)
+	}
+	for _, u := range y.unionTypes {
+		bases = append(bases, u.identityBases(depth+1)...)
+	}
+	return bases
+}
+
 func (y *Type) Union() []*Type {
 	return y.unionTypes
 }
